@@ -41,7 +41,7 @@ impl WalArchiveRecovery {
             })
             .collect();
 
-        archives.sort();
+        super::sort_by_log_id(&mut archives);
 
         info!(
             target: "wal_archive_recovery::list_archives",
